@@ -27,6 +27,11 @@
 //!           time passes) before a second one arrives) of fragment sets built by our own fragmenter, delivered to
 //!           an interface with a bound udp / raw socket.
 //!
+//!  * rx/oversize trains (only in the build variant with a 64 KiB reassembly buffer, the `asm32`
+//!           part of ./check C12, which then runs nothing else): maximal-size fragment trains
+//!           whose reassembled payload is the largest legal one (65515) or longer than any IPv4
+//!           datagram; no panic, nothing delivered / answered for the impossible ones.
+//!
 //! Every call into smoltcp made by a sweep case / BFS step / rx case runs under catch_unwind: a
 //! panic is reported as `C12/panic/<part>/<file>` with the failing case as replay, and the
 //! remaining cases are still executed.
@@ -43,6 +48,7 @@ use smoltcp::time::Instant;
 use smoltcp::wire::{EthernetAddress, HardwareAddress, IpAddress, IpCidr, IpProtocol, IpVersion};
 
 mod bfs;
+mod oversize;
 mod rx;
 mod tx;
 pub mod wire;
@@ -251,6 +257,29 @@ pub fn run(tier: Tier) -> i32 {
     ));
     rep.assumptions.push("MTU values are IP MTUs; on Medium::Ethernet the device MTU is 14 bytes larger and two neighbours (peer 10.0.0.2 / 02:..:02 and B 10.0.0.3 / 02:..:03) are pre-resolved by unsolicited ARP replies".into());
     rep.assumptions.push("device checksum capabilities = default (everything computed/verified in software) except in tx/S1 and tx/S1b, which also run with ipv4=Tx, ipv4=Rx, ipv4=None and all=Tx; the IPv4 header checksum is judged iff the capability value is Both or Tx (the stack computes it)".into());
+    if oversize::enabled() {
+        // Build variant with a 64 KiB reassembly buffer (the `asm32` part of ./check C12): ONLY the
+        // receive family "oversize trains" runs here; everything else is covered by the default
+        // and `small` parts, whose evidence this part is merged into.
+        rep.assumptions.push("this part (REASSEMBLY_BUFFER_SIZE >= 65535, i.e. the asm32 build variant) runs only the rx family 'oversize trains'; all other C12 parts run in the default and small variants".into());
+        oversize::run(&mut rep);
+        rep.cov(
+            "rule",
+            json!(format!(
+                "build variant with REASSEMBLY_BUFFER_SIZE={} ASSEMBLER_MAX_SEGMENT_COUNT={} (asm32): every train listed in rx_oversize_trains.domain (media x targets x reassembled payload lengths x arrival orders), each on a fresh interface; 'states'/'transitions' = trains",
+                smoltcp::config::REASSEMBLY_BUFFER_SIZE,
+                smoltcp::config::ASSEMBLER_MAX_SEGMENT_COUNT
+            )),
+        );
+        return rep.finish();
+    }
+    rep.cov(
+        "rx_oversize_trains",
+        json!(format!(
+            "skipped in this build variant (REASSEMBLY_BUFFER_SIZE={}): the family needs the 64 KiB reassembly buffer of the asm32 variant, see variant_asm32 in the merged evidence",
+            smoltcp::config::REASSEMBLY_BUFFER_SIZE
+        )),
+    );
     tx::run_s1(&mut rep, tier);
     tx::run_s1b(&mut rep, tier);
     tx::run_s1c(&mut rep, tier);
@@ -272,6 +301,7 @@ pub fn replay(art: &Value) -> i32 {
     }
     match r["part"].as_str() {
         Some("s1e") | Some("s1d") | Some("s1") | Some("s1b") | Some("s1c") => tx::replay(r),
+        Some("rx") if r["class"].as_str() == Some("oversize-trains") => oversize::replay(r),
         Some("rx") => rx::replay(r),
         _ => {
             eprintln!("MACHINERY ERROR: artefact has no known part/harness");
